@@ -25,7 +25,15 @@ corresponding `Link.step` (processing a `Push`/`Finish`/`Reset` of the flow: `de
 `read`; processing an `Acknowledge` of the flow: `deliverAck`), while moving a frame from an outbound
 queue onto the transport leaves `l` unchanged. So the new theorems bound, per flow and direction, the
 number of frame-processing steps and reads of the pair that concern it, *in the link model*; a step
-count for the pair as a whole (transmissions, other flows) is not stated.
+count for the pair as a whole (transmissions, other flows) is not stated there.
+
+Two WHOLE endpoints: `pair_internal_activity_terminates` (last section) bounds what the connection tasks
+and the pending `new_stream_channel` futures of both endpoints can do on their own — transmissions,
+frame processing with the replies it causes (`Connect` → `Acknowledge`, unknown flow → `Reset`, a rejected
+`Connect` → retry), dropped-handle notifications, parked hand-overs — by a measure `Pair.M` that every
+such step that changes the state decreases (`Lemmas/PairQuiesce.lean`, for ALL pair states);
+`pair_quiescent_writer_has_credit` is what the quiescent state such a schedule ends in looks like for a
+writer.
 -/
 import Penguin.Model.Link
 import Penguin.Model.Mux
@@ -33,6 +41,7 @@ import Penguin.Lemmas.Link
 import Penguin.Lemmas.LinkProgress
 import Penguin.Lemmas.MuxStep
 import Penguin.Lemmas.PairCor
+import Penguin.Lemmas.PairQuiesceCredit
 
 namespace Penguin.C04
 open Penguin Penguin.Link
@@ -259,5 +268,154 @@ example : Mux.thresholdFor { rwnd := 4, threshold := 8 } 16 = 4 := by decide
 example : (run (init 4 4) [.write [1], .write [2], .write [3], .write [4]]).credit = 0 := by decide
 example : (run (init 4 4) [.write [1], .write [2], .write [3], .write [4], .deliver, .deliver, .deliver, .deliver,
     .read 9, .read 9, .read 9, .read 9, .deliverAck]).credit = 4 := by decide
+
+/-! ## Two whole endpoints: the internal activity always dies down
+
+`Pair.internal a`: `a` is an action of a connection task or of a pending `new_stream_channel` future
+(`xmit`, `recv`, `notif`, `unpark`, `runDone`, `runRetries`) — not an application call (stream calls,
+datagram calls and the `Bind` calls `bindReq`, `bindNext`, `bindReply`, `bindDrop` are the environment).
+`Pair.productiveI p s a`: internal action `a` of side `s` is enabled in `p` and changes the state
+(`pair_productive_iff`; idle `unpark` / `runDone` / `runRetries` are enabled but change nothing).
+`Pair.ProdSched p l`: every action of `l` is productive in the state in which it is executed.
+`Pair.Quiescent p`: no internal action of either side is productive.
+`Pair.M p`: messages on the wires weighted by kind (Connect 12, Bind 6, Acknowledge 5, Finish 4, Push 4,
+Reset 2, others 1), one more each while still in an outbound queue, 4 per queued dropped-handle
+notification, 5 for a parked hand-over, 1 per `doneq` / `retryq` entry, 13 per remaining retry of a
+pending open request. -/
+
+open Penguin.Pair in
+/-- What "productive" means: internal, enabled, and the state changes. -/
+theorem pair_productive_iff (p : PS) (s : Side) (a : Pair.Act) :
+    productiveI p s a = true ↔ internal a = true ∧ ∃ p', Pair.step p s a = some p' ∧ p' ≠ p :=
+  productiveI_iff p s a
+
+open Penguin.Pair in
+/-- Every internal action (either side) that changes the state strictly decreases `M` — in EVERY pair
+    state, reachable or not: the reply a frame causes weighs less than the frame, a retried `Connect` is
+    paid for by the retry it uses up. -/
+theorem pair_internal_step_decreases (p p' : PS) (s : Side) (a : Pair.Act) (hi : internal a = true)
+    (hs : Pair.step p s a = some p') (hne : p' ≠ p) : M p' < M p :=
+  step_internal_decreases p p' s a hi hs hne
+
+open Penguin.Pair in
+/-- **The internal activity of two conforming endpoints always dies down, under every schedule.** From
+    any pair state `p` (so in particular from every reachable one), for any schedule `sched` of productive
+    internal actions, the two sides interleaved in any way, chosen by an adversary or not:
+    * the schedule is at most `M p` steps long — every step pays one unit of the measure;
+    * there is no infinite one: any infinite sequence of internal actions finds nothing to do within its
+      first `M p + 1` actions;
+    * if it is maximal (no action can be appended) it ends in a quiescent state;
+    * it can always be extended to a maximal one. -/
+theorem pair_internal_activity_terminates (p : PS) (sched : List (Side × Pair.Act)) (hp : ProdSched p sched) :
+    sched.length + M (Pair.run p sched) ≤ M p ∧
+    (∀ f : Nat → Side × Pair.Act, ∃ k, k ≤ M p ∧ ProdSched p (Pair.pre f k) ∧
+      productiveI (Pair.run p (Pair.pre f k)) (f k).1 (f k).2 = false) ∧
+    ((∀ sa, ¬ ProdSched p (sched ++ [sa])) → Quiescent (Pair.run p sched)) ∧
+    (∃ more, ProdSched p (sched ++ more) ∧ Quiescent (Pair.run p (sched ++ more))) := by
+  refine ⟨prodSched_measure p sched hp, schedule_hits_idle p, maximal_quiescent p sched hp, ?_⟩
+  obtain ⟨more, h1, h2⟩ := exists_quiescent (Pair.run p sched)
+  exact ⟨more, (prodSched_append p sched more).2 ⟨hp, h1⟩, by rw [Pair.run_append]; exact h2⟩
+
+open Penguin.Mux Penguin.Pair in
+/-- … in particular from every state reachable from two fresh endpoints, whatever the applications did
+    before: every schedule of productive internal actions is at most `M` of that state long. -/
+theorem pair_internal_activity_bounded (oa ob : Opts) (ra rb : List Nat) (before sched : List (Side × Pair.Act))
+    (hp : ProdSched (Pair.run (Pair.init oa ob ra rb) before) sched) :
+    sched.length ≤ M (Pair.run (Pair.init oa ob ra rb) before) :=
+  prodSched_length _ sched hp
+
+open Penguin.Mux Penguin.Pair in
+/-- In a reachable quiescent state in which neither receive loop is parked on a full accept or bind queue
+    (the applications keep accepting — the premise of `isolation`), nothing is in transit: both outbound
+    queues and both wires are empty. -/
+theorem pair_quiescent_nothing_in_transit {oa ob : Opts} {ra rb : List Nat} (c : Cfg oa ob ra rb)
+    (as : List (Side × Pair.Act))
+    (hq : Quiescent (Pair.run (Pair.init oa ob ra rb) as))
+    (hpa : (Pair.run (Pair.init oa ob ra rb) as).a.park = none)
+    (hpb : (Pair.run (Pair.init oa ob ra rb) as).b.park = none) :
+    let p := Pair.run (Pair.init oa ob ra rb) as
+    p.a.outq = [] ∧ p.b.outq = [] ∧ p.ab = [] ∧ p.ba = [] :=
+  quiescent_nothing_in_transit (reach_inv c as) (reach_plain oa ob ra rb as) hq hpa hpb
+
+open Penguin.Mux Penguin.Pair in
+/-- **When the internal activity has died down the writer has credit.** In a reachable quiescent state
+    with neither receive loop parked, on every flow established on both endpoints whose reader (at `b`)
+    has emptied its queue, the writer (at `a`) has credit — all of the window `b` advertised except the
+    frames `b` has read and not acknowledged yet (fewer than the threshold). So a pending write of a
+    non-empty payload goes through: no stream is blocked for ever once its reader has read.
+    (`pair_no_stall` with quiescence: nothing in transit, no `Acknowledge` pending.) -/
+theorem pair_quiescent_writer_has_credit {oa ob : Opts} {ra rb : List Nat} (c : Cfg oa ob ra rb)
+    (as : List (Side × Pair.Act))
+    (hq : Quiescent (Pair.run (Pair.init oa ob ra rb) as))
+    (hpa : (Pair.run (Pair.init oa ob ra rb) as).a.park = none)
+    (hpb : (Pair.run (Pair.init oa ob ra rb) as).b.park = none)
+    {x i j : Nat} (e : Established (Pair.run (Pair.init oa ob ra rb) as) x i j)
+    (hr : ∀ oB, (Pair.run (Pair.init oa ob ra rb) as).b.objs[j]? = some oB → oB.rxq = []) :
+    let p := Pair.run (Pair.init oa ob ra rb) as
+    ∃ oA oB, p.a.objs[i]? = some oA ∧ p.b.objs[j]? = some oB ∧ 0 < oA.credit ∧
+      oA.credit + oB.recvdSince = p.b.opts.rwnd :=
+  quiescent_writer_credit (reach_inv c as) (reach_plain oa ob ra rb as) hq hpa hpb e hr
+
+/-! Non-vacuity. Window 1 (`pcfg1`): after `pacts1r` the `Push` has been processed and read, the reader's
+    `Acknowledge` sits in `b`'s outbound queue, the writer still has no credit; `M = 6`. -/
+private def pst : Pair.PS := Pair.run (Pair.init pcfg1 pcfg1 [7, 8] [9, 10]) pacts1r
+example : Pair.M pst = 6 ∧ (pst.a.objs[0]?.map (·.credit)) = some 0 := by decide
+/-- The only productive internal schedule from there: `b` transmits the `Acknowledge`, `a` processes it —
+    2 ≤ 6 steps, maximal, and it ends in a quiescent state with `M = 0`. -/
+private def psched : List (Pair.Side × Pair.Act) := [(.B, .xmit), (.A, .recv)]
+example : Pair.ProdSched pst psched := by decide
+example : Pair.Quiescent (Pair.run pst psched) := (Pair.quiescent_iff _).2 (by decide)
+example : Pair.M (Pair.run pst psched) = 0 := by decide
+example : psched.length + Pair.M (Pair.run pst psched) ≤ Pair.M pst :=
+  (pair_internal_activity_terminates pst psched (by decide)).1
+/-- Idle internal actions are enabled but not productive; application calls are not internal. -/
+example : Pair.productiveI pst .A .unpark = false ∧ (Pair.step pst .A .unpark).isSome = true ∧
+    Pair.productiveI pst .A .runDone = false ∧ Pair.productiveI pst .B .recv = false ∧
+    Pair.productiveI pst .B .xmit = true ∧ Pair.internal (.read 0 9) = false := by decide
+example : ¬ Pair.ProdSched pst (psched ++ [(.A, .recv)]) := by decide
+/-- `pair_internal_step_decreases` on the two steps: 6 → 5 → 0. -/
+example : Pair.M (Pair.run pst [(.B, .xmit)]) = 5 := by decide
+/-- The hypotheses of `pair_quiescent_writer_has_credit` are met by the reachable state at the end of
+    that schedule (flow 7 established on both endpoints, nothing parked, the reader's queue empty), and
+    the writer has its credit back. -/
+private def pactsq : List (Pair.Side × Pair.Act) := pacts1r ++ psched
+private theorem pcfg1_ok : Pair.Cfg pcfg1 pcfg1 [7, 8] [9, 10] := ⟨by decide, by decide, by decide, by decide⟩
+example : Pair.Established (Pair.run (Pair.init pcfg1 pcfg1 [7, 8] [9, 10]) pactsq) 7 0 0 :=
+  ⟨by decide, by decide, by decide, by decide, by decide⟩
+example : ∃ oA oB, (Pair.run (Pair.init pcfg1 pcfg1 [7, 8] [9, 10]) pactsq).a.objs[0]? = some oA ∧
+    (Pair.run (Pair.init pcfg1 pcfg1 [7, 8] [9, 10]) pactsq).b.objs[0]? = some oB ∧ 0 < oA.credit ∧
+    oA.credit + oB.recvdSince = (Pair.run (Pair.init pcfg1 pcfg1 [7, 8] [9, 10]) pactsq).b.opts.rwnd :=
+  pair_quiescent_writer_has_credit pcfg1_ok pactsq ((Pair.quiescent_iff _).2 (by decide)) (by decide) (by decide)
+    (x := 7) (i := 0) (j := 0) ⟨by decide, by decide, by decide, by decide, by decide⟩
+    (by intro oB h
+        have h0 : ((Pair.run (Pair.init pcfg1 pcfg1 [7, 8] [9, 10]) pactsq).b.objs[0]?.map (·.rxq)) = some [] := by decide
+        rw [h] at h0; simpa using h0)
+example : ((Pair.run (Pair.init pcfg1 pcfg1 [7, 8] [9, 10]) pactsq).a.objs[0]?.map (·.credit)) = some 1 := by decide
+/-- Why the premise "not parked": with an accept queue of one stream, a second `Connect` parks `b`'s
+    receive loop; the state is quiescent although a third `Connect` is still on the wire. -/
+private def pcfgP : Mux.Opts := { acceptCap := 1 }
+private def pstP : Pair.PS := Pair.run (Pair.init pcfgP pcfgP [7, 8, 11, 12] [9, 10])
+  [(.A, .open 1 [104] 80), (.A, .open 2 [104] 81), (.A, .open 3 [104] 82), (.A, .xmit), (.A, .xmit), (.A, .xmit),
+   (.B, .recv), (.B, .recv), (.B, .xmit), (.B, .xmit), (.A, .recv), (.A, .recv), (.A, .runDone)]
+example : Pair.Quiescent pstP ∧ pstP.b.park.isSome = true ∧ pstP.ab.length = 1 :=
+  ⟨(Pair.quiescent_iff _).2 (by decide), by decide, by decide⟩
+
+/-! Non-vacuity with `Bind` traffic (bind queue of one request): two `Bind` requests of `a` are in its
+    outbound queue, `M = 14`. Transmitting and processing both is productive; the second parks `b`'s
+    receive loop on the full bind queue (weight 5) and the state is quiescent. After `b`'s application
+    has taken and accepted the first request, the parked hand-over completes, the `Finish` travels, and
+    the internal activity dies down with `M = 0`. -/
+private def pcfgB : Mux.Opts := { bindCap := 1 }
+private def pstB : Pair.PS := Pair.run (Pair.init pcfgB pcfgB [7, 8, 11] [9, 10])
+  [(.A, .bindReq 1 .stream [104] 80), (.A, .bindReq 2 .stream [104] 81)]
+private def pschedB : List (Pair.Side × Pair.Act) := [(.A, .xmit), (.A, .xmit), (.B, .recv), (.B, .recv)]
+example : Pair.M pstB = 14 ∧ Pair.ProdSched pstB pschedB ∧ Pair.M (Pair.run pstB pschedB) = 5 ∧
+    (Pair.run pstB pschedB).b.park.isSome = true := by decide
+example : Pair.Quiescent (Pair.run pstB pschedB) := (Pair.quiescent_iff _).2 (by decide)
+private def pstB' : Pair.PS := Pair.run (Pair.run pstB pschedB) [(.B, .bindNext), (.B, .bindReply 0 true)]
+example : Pair.M pstB' = 10 ∧ Pair.ProdSched pstB' [(.B, .unpark), (.B, .xmit), (.A, .recv)] ∧
+    Pair.M (Pair.run pstB' [(.B, .unpark), (.B, .xmit), (.A, .recv)]) = 0 := by decide
+example : Pair.Quiescent (Pair.run pstB' [(.B, .unpark), (.B, .xmit), (.A, .recv)]) :=
+  (Pair.quiescent_iff _).2 (by decide)
 
 end Penguin.C04
